@@ -2,4 +2,15 @@
 EXTENDS Registry
 \* package a has releases 1 and 2, b has release 1, c does not exist; 3 is a version nobody released
 MCPublished == ("a" :> {1, 2} @@ "b" :> {1})
+
+\* --- requests larger than any bound on concurrent downloads (Registry_big.cfg): every order of the five
+\* keys that have a meaning, alone and followed by a key of the package that does not exist
+S5 == {[n |-> "a", v |-> 0], [n |-> "a", v |-> 1], [n |-> "a", v |-> 2], [n |-> "b", v |-> 0], [n |-> "b", v |-> 1]}
+Perms5 == {l \in [1..5 -> S5] : Distinct(l)}
+MCBigRequests == Perms5 \cup {Append(p, [n |-> "c", v |-> 0]) : p \in Perms5}
+
+\* --- pre-release versions (Registry_pre.cfg): 4 is 1.1.0-rc.1, a release of a that sorts between 1 (1.0.0)
+\* and 2 (1.1.0); a key asking for it gets exactly it, an unversioned key still gets 2
+MCPublishedPre == ("a" :> {1, 2, 4} @@ "b" :> {1})
+MCLatestPre(n) == IF n = "a" THEN 2 ELSE 1
 ====
